@@ -181,28 +181,43 @@ def minrange(ctx, rule='C19-R4'):
     mn = ('call', ('g', 'numpy.nanmin'), (V,), ())
     mx = ('call', ('g', 'numpy.nanmax'), (V,), ())
     mr = ('p', 'min_range')
-    span_ok = T.lin_cmp(('cmp', 'le', mr, ('bin', '-', mx, mn)))
+    span_atom = T.mk_cmp('<=', mr, ('bin', '-', mx, mn))
     found = {'wide': False, 'narrow': False}
+    from itertools import product as _product
     for e in rets:
         v = e.value
         if tag(v) != 'tuple' or len(v[1]) != 2:
             continue
-        lits = [T.lin_cmp(l) for l in guard_literals(e.guard)]
-        lo, hi = v[1]
-        if span_ok in lits:
-            found['wide'] = True
-            ctx.check((lo, hi) == (mn, mx), rule, q, e.node, e.loc(),
-                      f'with a span of at least min_range the interval is ({T.show(lo)}, {T.show(hi)}): expected '
-                      '(nanmin, nanmax)', instance='minrange2minmax: span >= min_range -> (nanmin, nanmax)')
-        elif T.lin_cmp(T.mk_not(('cmp', 'le', mr, ('bin', '-', mx, mn)))) in lits:
+        phis = []
+        for x in T.walk(v):
+            if tag(x) == 'phi' and x not in phis:
+                phis.append(x)
+        for choice in _product(*[ph[1] for ph in phis[:3]]):
+            vv = T.subst(v, {ph: alt[1] for ph, alt in zip(phis, choice)}) if phis else v
+            g = T.mk_and([e.guard] + [alt[0] for alt in choice])
+            if g == T.FALSE or tag(vv) != 'tuple' or len(vv[1]) != 2:
+                continue
+            lo, hi = vv[1]
+            if (lo, hi) == (mn, mx):
+                # the data extrema are used only when they span at least the minimum range
+                found['wide'] = True
+                ctx.check(T.implies(g, span_atom) is True, rule, q, e.node, e.loc(),
+                          f'(nanmin, nanmax) is returned under {T.show(g, maxlen=140)}, which does not entail a span of at least '
+                          'min_range: the minimum range is not honoured',
+                          instance='minrange2minmax: span >= min_range -> (nanmin, nanmax)')
+                continue
             found['narrow'] = True
-            pl, ph = to_poly(lo, V), to_poly(hi, V)
-            width = ph - pl
-            centre = ph + pl
-            ok = width == Poly.atom(mr) and centre == Poly.atom(mx) + Poly.atom(mn)
+            pl, ph_ = to_poly(lo, V), to_poly(hi, V)
+            width = ph_ - pl
+            centre = ph_ + pl
+            # width = the minimum range asked for, or a positive constant where none (or none positive) was asked for
+            is_pos_const = set(width.d) <= {()} and width.d.get((), 0) > 0
+            wide_enough = width == Poly.atom(mr) or (is_pos_const and T.implies(g, T.mk_cmp('<=', mr, C(0))) is True)
+            ok = wide_enough and centre == Poly.atom(mx) + Poly.atom(mn)
             ctx.check(ok, rule, q, e.node, e.loc(),
                       f'below min_range the interval has width {width.show()} and twice-centre {centre.show()}: expected '
-                      'width min_range, centred on (nanmax + nanmin) / 2',
+                      'width min_range (a positive constant where no positive range was asked for), centred on '
+                      '(nanmax + nanmin) / 2',
                       instance='minrange2minmax: span < min_range -> symmetric interval of width min_range')
     ctx.check(all(found.values()), rule, q, f.node.name, f.loc(),
               f'minrange2minmax branches found: {found}', instance='minrange2minmax: both branches present')
@@ -531,3 +546,115 @@ def routine_defaults_and_dispatch(ctx, rule='C19-R8'):
               f'apply_scaling dispatches to {sorted(x.split(".")[-1] for x in found)}: one of the three scalings is unreachable',
               instance='apply_scaling: three routines reachable')
     ctx.floor(rule, 'defaults and dispatch obligations', n, 9)
+
+
+# ---------------------------------------------------------------------------------------------- C19-R9 / C05-R10
+def positive_span(ctx, rule='C19-R9'):
+    """The pair (min_val, max_val) that minrange2minmax derives for the min-max scaling spans a positive range on every
+    path: max_val - min_val, as a linear form in nanmax(vals), nanmin(vals) and min_range, is positive given the guard of
+    the return (and nanmax >= nanmin).  A zero span - identical values and a minimum range of 0 - makes the scaling
+    0 / 0: every height becomes NaN, find_slices takes the hits for non-detections and an overcast deck is reported NCD."""
+    fx = effects(ctx)
+    p = ctx.project
+    q = f'{MOD}.minrange2minmax'
+    f = p.func(q, rule)
+    ctx.saw(f)
+    NMAX = ('call', ('g', 'numpy.nanmax'), (V,), ())
+    NMIN = ('call', ('g', 'numpy.nanmin'), (V,), ())
+
+    def lin(t):
+        t = T.peel(t) if tag(t) not in ('bin', 'c', 'un') else t
+        if tag(t) == 'bin' and t[1] == '/' and T.is_const(t[3]) and isinstance(t[3][1], (int, float)) and t[3][1] != 0:
+            l, c = lin(t[2])
+            return {k: v / t[3][1] for k, v in l.items()}, c / t[3][1]
+        if tag(t) == 'bin' and t[1] in ('+', '-'):
+            la, ca = lin(t[2])
+            lb, cb = lin(t[3])
+            s = 1 if t[1] == '+' else -1
+            out = dict(la)
+            for k, v in lb.items():
+                out[k] = out.get(k, 0) + s * v
+            return {k: v for k, v in out.items() if abs(v) > 1e-12}, ca + s * cb
+        if tag(t) == 'bin' and t[1] == '*':
+            for a, b in ((t[2], t[3]), (t[3], t[2])):
+                if T.is_const(a) and isinstance(a[1], (int, float)):
+                    l, c = lin(b)
+                    return {k: v * a[1] for k, v in l.items()}, c * a[1]
+        if tag(t) == 'un' and t[1] == '-':
+            l, c = lin(t[2])
+            return {k: -v for k, v in l.items()}, -c
+        if T.is_const(t) and isinstance(t[1], (int, float)) and not isinstance(t[1], bool):
+            return {}, t[1]
+        return {t: 1}, 0
+
+    def sub(a, b):
+        out = dict(a[0])
+        for k, v in b[0].items():
+            out[k] = out.get(k, 0) - v
+        return {k: v for k, v in out.items() if abs(v) > 1e-12}, a[1] - b[1]
+
+    def facts_of(guard):
+        """[(linear form, strict?)] with form > 0 (strict) or >= 0 known to hold."""
+        out = [(({NMAX: 1, NMIN: -1}, 0), False)]           # the largest value is not below the smallest
+        for l in guard_literals(guard):
+            neg = tag(l) == 'not'
+            c = l[1] if neg else l
+            if tag(c) != 'cmp' or c[1] not in ('lt', 'le'):
+                continue
+            a, b = lin(c[2]), lin(c[3])
+            if not neg:
+                out.append((sub(b, a), c[1] == 'lt'))         # a < b  /  a <= b
+            else:
+                out.append((sub(a, b), c[1] == 'le'))         # not a < b: a >= b;  not a <= b: a > b
+        return out
+
+    def positive(d, facts):
+        if not d[0]:
+            return d[1] > 0
+        for (ff, strict) in facts:
+            if not strict:
+                continue
+            rest = sub(d, ff)
+            if not rest[0] and rest[1] >= 0:
+                return True
+            for (gg, _) in facts:
+                r2 = sub(rest, gg)
+                if not r2[0] and r2[1] >= 0:
+                    return True
+        return False
+    rets = [e for e in split_alternatives(fx.deep_events(q)) if e.kind == 'return' and not e.ctx]
+    n = 0
+    for e in rets:
+        v = e.value
+        if tag(v) != 'tuple' or len(v[1]) != 2:
+            ctx.violation(rule, q, e.node, e.loc(), f'minrange2minmax returns {T.show(v, maxlen=100)}: not a (min, max) pair',
+                          instance='minrange2minmax: returns a pair')
+            continue
+        # a value selected on the way (`if min_range <= 0: min_range = 1`) is looked at alternative by alternative
+        phis = []
+        for x in T.walk(v):
+            if tag(x) == 'phi' and x not in phis:
+                phis.append(x)
+        if len(phis) > 3:
+            raise AnalysisError(rule, 'too many selections in the value returned by minrange2minmax')
+        from itertools import product as _product
+        for choice in _product(*[ph[1] for ph in phis]):
+            mapping = {ph: alt[1] for ph, alt in zip(phis, choice)}
+            vv = T.subst(v, mapping) if mapping else v
+            if tag(vv) != 'tuple' or len(vv[1]) != 2:
+                continue
+            l_, h = vv[1]
+            if True:
+                g = T.mk_and([e.guard] + [alt[0] for alt in choice])
+                if g == T.FALSE:
+                    continue
+                for alt in (T.dnf(g) or [g]):
+                    n += 1
+                    d = sub(lin(h), lin(l_))
+                    ctx.check(positive(d, facts_of(alt)), rule, q, e.node, e.loc(),
+                              f'under {T.show(alt, maxlen=160)} minrange2minmax returns ({T.show(l_, maxlen=60)}, '
+                              f'{T.show(h, maxlen=60)}): nothing makes max_val - min_val positive there - for identical values '
+                              'and a minimum range of 0 the span is 0, the min-max scaling is 0 / 0, every height becomes NaN '
+                              'and find_slices takes all hits for non-detections (an overcast deck reported as NCD)',
+                              instance='minrange2minmax: the derived (min_val, max_val) span a positive range')
+    ctx.floor(rule, 'return alternatives of minrange2minmax', n, 2)
